@@ -1,13 +1,38 @@
-# C01 (worker w14): block processor front end, proved modularly
-# (w14_bp_model.h states the contracts GNB / ENQ).
+# C01 (worker w14): block processor front end, proved modularly.
+# w14_bp_model.h states the two callee contracts GNB (get_new_block) and ENQ
+# (enqueue_block) once: the callee harnesses prove the real bodies against
+# them, the caller harnesses (append, add_sentinel_block) run with the callees
+# REPLACED by stubs that are those contracts (goto-instrument --replace-calls
+# in a pre-pass, so --apply-loop-contracts never sees the real callee bodies).
 FUNCTIONS = [
-    "sqfs_block_processor_append (get_new_block / enqueue_block replaced by their contracts)",
+    "sqfs_block_processor_append (get_new_block / enqueue_block replaced by their contracts; unbounded, loop contract)",
+    "get_new_block (unbounded, loop contract on the back-pressure loop)",
+    "enqueue_block",
+    "add_sentinel_block (callees replaced by their contracts)",
 ]
-TRUSTED = []
-ASSUMPTIONS = []
+TRUSTED = [
+    "dequeue_block as seen by get_new_block: fails, or the backlog strictly decreases; may refill the free list",
+    "thread_pool_t.submit / get_status: any result",
+]
+ASSUMPTIONS = [
+    "bp_append: one append call adds at most 2^40 bytes and the file's block index stays below 2^30 "
+    "before it (blk_index is 32 bit; set_block_size bounds the block list)",
+    "bp_append / w14_bp_*: block payloads and the caller's data buffer are address ranges, not cbmc "
+    "objects of that size; every copy is checked against the range arithmetically (C01.bp.append_safe, "
+    "C01.bp.enqueue.copy) and the capacity BS is the checked argument of the real malloc "
+    "(C01.bp.get_new_block.capacity); --pointer-overflow-check is off for bp_append only",
+    "the front end holds at most one block at a time (asserted: C01.bp.one_block_in_hand), so one block "
+    "object stands for every block get_new_block delivers to append",
+]
 
 _REPL = ["--replace-calls", "get_new_block:c01_get_new_block",
          "--replace-calls", "enqueue_block:c01_enqueue_block"]
+_BS = (12, 17, 20)
+
+
+def _tier(lg):
+    return "quick" if lg == 12 else "thorough"
+
 
 HARNESSES = [
     dict(name="bp_append", file="bp_append.c", label="proved", timeout=600,
@@ -20,7 +45,25 @@ HARNESSES = [
          # check also reports "pointer outside object bounds", which the named
          # obligations C01.bp.append_safe state arithmetically instead.
          nochecks=["--conversion-check", "--pointer-overflow-check"],
+         must_have=["C01.bp.append_safe", "C01.bp.bytes_in_order", "C01.bp.blocks_full",
+                    "C01.bp.file_size", "C01.bp.fail_stop", "C01.bp.one_block_in_hand"],
          cases=[dict(id="cur%d_bs%d" % (c, 1 << lg), defines={"HAVE_CUR": c, "BS_LOG": lg},
-                     tier="quick" if lg == 12 else "thorough")
-                for lg in (12, 17, 20) for c in (0, 1)]),
+                     tier=_tier(lg))
+                for lg in _BS for c in (0, 1)]),
+    dict(name="bp_get_new_block", file="w14_bp_get_new_block.c", label="proved", timeout=300,
+         loops=["get_new_block"], loop_tables=["C01_w14"],
+         must_have=["C01.bp.get_new_block.fresh", "C01.bp.get_new_block.capacity",
+                    "C01.bp.get_new_block.zeroed", "C01.bp.get_new_block.backlog",
+                    "C01.bp.get_new_block.fail_stop"],
+         cases=[dict(id="bs%d" % (1 << lg), defines={"BS_LOG": lg}, tier=_tier(lg)) for lg in _BS]),
+    dict(name="bp_enqueue", file="w14_bp_enqueue.c", label="proved", timeout=300,
+         fp={"submit": "stub_submit", "get_status": "stub_get_status"},
+         must_have=["C01.bp.enqueue.submitted", "C01.bp.enqueue.copy", "C01.bp.enqueue.fail_stop"],
+         cases=[dict(id="readback%d_bs%d" % (rb, 1 << lg), defines={"WITH_READBACK": rb, "BS_LOG": lg},
+                     tier=_tier(lg))
+                for lg in _BS for rb in (0, 1)]),
+    dict(name="bp_sentinel", file="w14_bp_sentinel.c", label="proved", timeout=300,
+         pre_instrument_flags=_REPL,
+         must_have=["C01.bp.sentinel.block", "C01.bp.sentinel.fail_stop", "C01.bp.sentinel.frame"],
+         cases=[dict(id="all", tier="quick")]),
 ]
